@@ -83,6 +83,9 @@ func normalise(o eng.Outcome, mode string) string {
 	if o.Kind == "nodes" && mode == "set" {
 		return fmt.Sprintf("nodes:%v", eng.AsSet(o.Nodes))
 	}
+	if o.Kind == "nodes" && mode == "bag" {
+		return fmt.Sprintf("nodes:%v", eng.SortedBag(o.Nodes))
+	}
 	return o.String()
 }
 
